@@ -116,7 +116,8 @@ def strace_config():
         return None
     sets = ["%file,%network,%process,%desc,io_uring_setup,io_uring_enter,io_uring_register",
             "%file,%network,%process,%desc"]
-    for seccomp in (True, False):
+    # (--seccomp-bpf was measured to cost ~0.5 s of start-up per traced process with this trace set: not used)
+    for seccomp in (False,):
         for ts in sets:
             cmd = ["strace"] + (["--seccomp-bpf"] if seccomp else []) + ["-f", "-y", "-s", "48", "-o", "/dev/null",
                                                                          "-e", "trace=" + ts, "--", "/bin/true"]
